@@ -4,7 +4,7 @@ from ..common import Check
 from . import tomo_common as tc
 
 PID = "C16"
-MINE = {"li_choi", "choi_reference", "li_fidelity", "gate_fidelity", "mle_positive", "mle_tp", "mle_fidelity", "base_changed"}
+MINE = {"raised", "li_choi", "choi_reference", "li_fidelity", "gate_fidelity", "mle_positive", "mle_tp", "mle_fidelity", "base_changed"}
 INV = ["ChoiPinned", "SymmetricAgree", "FidelityBounds"]
 
 
